@@ -20,9 +20,18 @@ import (
 // Director owns the per-round mutation scripts of all peers and the record of
 // everything the peers sent (the peer-side half of the oracle).
 type Director struct {
-	trunk   []*chaingen.Node // index = height (0 = genesis)
-	byHash  map[chainhash.Hash]*chaingen.Node
-	peerIdx map[string]int
+	// chain is the honest best chain the peers currently serve (index =
+	// height, 0 = genesis). It is replaced as a whole by SetChain when the
+	// honest chain grows or re-organises; peer goroutines only load it.
+	chain atomic.Pointer[[]*chaingen.Node]
+	// byHash knows every block that was EVER part of the honest chain (blocks
+	// of replaced branches stay: a key naming one of them is not "foreign").
+	// replaced maps a height to the block most recently replaced at that height
+	// by a re-organisation.
+	hmu      sync.RWMutex
+	byHash   map[chainhash.Hash]*chaingen.Node
+	replaced map[int32]*chaingen.Node
+	peerIdx  map[string]int
 	seed    int64
 	cur     atomic.Pointer[roundState]
 	reqSeq  atomic.Int64
@@ -31,13 +40,16 @@ type Director struct {
 	// timeout, so an unbounded trickle would keep a failing query alive for
 	// minutes (legitimate client behaviour, but unaffordable here).
 	unsolValid atomic.Int32
+	// validCeil (0 = none): unsolicited VALID filters are only sent for
+	// heights up to it (the blocks above are the ones re-orgs will replace).
+	validCeil atomic.Int32
 	// lag: blocks above the client's filter-header tip whose filter headers
 	// the peers withhold (lag phase).
 	lag atomic.Pointer[[]*chaingen.Node]
 
 	mu          sync.Mutex
-	good        map[int32]int // height -> verifiable cfilter messages handed to the wire
-	badFor      map[int32]int // height -> non-verifiable messages naming that block
+	good        map[chainhash.Hash]int // block -> verifiable cfilter messages handed to the wire
+	badFor      map[chainhash.Hash]int // block -> non-verifiable messages naming that block
 	foreign     map[chainhash.Hash]bool
 	reqs        int64
 	served      map[string]int64 // base kind -> requests answered
@@ -59,14 +71,53 @@ type roundState struct {
 
 // NewDirector builds a director for the chain ending in tip.
 func NewDirector(seed int64, tip *chaingen.Node) *Director {
-	d := &Director{trunk: tip.Path(), byHash: map[chainhash.Hash]*chaingen.Node{}, peerIdx: map[string]int{}, seed: seed,
-		good: map[int32]int{}, badFor: map[int32]int{}, foreign: map[chainhash.Hash]bool{},
+	d := &Director{byHash: map[chainhash.Hash]*chaingen.Node{}, replaced: map[int32]*chaingen.Node{},
+		peerIdx: map[string]int{}, seed: seed,
+		good: map[chainhash.Hash]int{}, badFor: map[chainhash.Hash]int{}, foreign: map[chainhash.Hash]bool{},
 		served: map[string]int64{}, roundLabels: map[string]int{}, roundPos: map[string]bool{}}
-	for _, n := range d.trunk {
-		d.byHash[n.Hash] = n
-	}
+	d.SetChain(tip)
 	return d
 }
+
+// SetChain makes the chain ending in tip the honest best chain. Its blocks are
+// added to the set of known chain blocks; blocks of the previous chain that
+// are not on the new one are remembered as replaced (they stay known).
+func (d *Director) SetChain(tip *chaingen.Node) {
+	path := tip.Path()
+	d.hmu.Lock()
+	if old := d.chain.Load(); old != nil {
+		for h, n := range *old {
+			if h >= len(path) || path[h] != n {
+				d.replaced[int32(h)] = n
+			}
+		}
+	}
+	for _, n := range path {
+		d.byHash[n.Hash] = n
+	}
+	d.hmu.Unlock()
+	d.chain.Store(&path)
+}
+
+// path returns the current honest chain (index = height).
+func (d *Director) path() []*chaingen.Node { return *d.chain.Load() }
+
+// OnChain reports whether n is a block of the current honest chain.
+func (d *Director) OnChain(n *chaingen.Node) bool {
+	p := d.path()
+	return n != nil && int(n.Height) < len(p) && p[n.Height] == n
+}
+
+// Replaced returns the block a re-organisation most recently replaced at
+// height h (nil if none).
+func (d *Director) Replaced(h int32) *chaingen.Node {
+	d.hmu.RLock()
+	defer d.hmu.RUnlock()
+	return d.replaced[h]
+}
+
+// SetValidCeil restricts unsolicited VALID filters to heights <= h.
+func (d *Director) SetValidCeil(h int32) { d.validCeil.Store(h) }
 
 // Attach installs the director on a peer.
 func (d *Director) Attach(p *netsim.Peer) {
@@ -75,7 +126,11 @@ func (d *Director) Attach(p *netsim.Peer) {
 }
 
 // Node returns the chain block with the given hash (nil if none).
-func (d *Director) Node(h chainhash.Hash) *chaingen.Node { return d.byHash[h] }
+func (d *Director) Node(h chainhash.Hash) *chaingen.Node {
+	d.hmu.RLock()
+	defer d.hmu.RUnlock()
+	return d.byHash[h]
+}
 
 // BeginRound installs the mutations of a round.
 func (d *Director) BeginRound(idx int, specs []Spec, targets map[int32]bool) {
@@ -104,9 +159,9 @@ func (d *Director) RoundServed() (labels []string, pos []string, reqs int) {
 	return labels, pos, d.roundReqs
 }
 
-// Good returns how many verifiable filters for height h were handed to the
+// Good returns how many verifiable filters for the block were handed to the
 // wire by any peer so far.
-func (d *Director) Good(h int32) int { d.mu.Lock(); defer d.mu.Unlock(); return d.good[h] }
+func (d *Director) Good(h chainhash.Hash) int { d.mu.Lock(); defer d.mu.Unlock(); return d.good[h] }
 
 // Recent returns the last recorded sends.
 func (d *Director) Recent() []string {
@@ -118,7 +173,7 @@ func (d *Director) Recent() []string {
 // Verifies decides, from the generator's ground truth, whether a cfilter
 // message is a verifiable filter of the chain block it names.
 func (d *Director) Verifies(m *wire.MsgCFilter) (n *chaingen.Node, ok bool) {
-	n = d.byHash[m.BlockHash]
+	n = d.Node(m.BlockHash)
 	if n == nil || m.FilterType != wire.GCSFilterRegular {
 		return n, false
 	}
@@ -154,10 +209,10 @@ func (d *Director) record(peer int, label string, msgs []wire.Message, unsolicit
 		n, ok := d.Verifies(cf)
 		switch {
 		case ok:
-			d.good[n.Height]++
+			d.good[n.Hash]++
 			g++
 		case n != nil:
-			d.badFor[n.Height]++
+			d.badFor[n.Hash]++
 			b++
 			if len(msgs) <= 8 || b <= 3 {
 				d.note(fmt.Sprintf("peer%d %s BAD type=%d names-height=%d len=%d", peer, label, cf.FilterType, n.Height, len(cf.Data)))
@@ -294,13 +349,14 @@ func clone(e *wire.MsgCFilter) *wire.MsgCFilter {
 	return &c
 }
 
-func (d *Director) tipHeight() int32 { return int32(len(d.trunk) - 1) }
+func (d *Director) tipHeight() int32 { return int32(len(d.path()) - 1) }
 
 // corrupt produces the corrupted version of the entry for height h in a
 // response covering [start, stop].
 func (d *Director) corrupt(e *wire.MsgCFilter, corr string, h, start, stop int32, rng *rand.Rand) *wire.MsgCFilter {
 	c := clone(e)
-	tip := d.tipHeight()
+	trunk := d.path()
+	tip := int32(len(trunk) - 1)
 	otherHeight := func(near bool) int32 {
 		if near {
 			if h+1 <= tip && (h-1 < 0 || rng.Intn(2) == 0) {
@@ -355,9 +411,9 @@ func (d *Director) corrupt(e *wire.MsgCFilter, corr string, h, start, stop int32
 			}
 		}
 	case COtherNear:
-		c.Data = append([]byte(nil), d.trunk[otherHeight(true)].FilterBytes...)
+		c.Data = append([]byte(nil), trunk[otherHeight(true)].FilterBytes...)
 	case COtherFar:
-		c.Data = append([]byte(nil), d.trunk[otherHeight(false)].FilterBytes...)
+		c.Data = append([]byte(nil), trunk[otherHeight(false)].FilterBytes...)
 	case CHashOutside:
 		var cand []int32
 		if start-1 >= 1 {
@@ -375,7 +431,7 @@ func (d *Director) corrupt(e *wire.MsgCFilter, corr string, h, start, stop int32
 		if len(cand) == 0 {
 			cand = append(cand, 0)
 		}
-		c.BlockHash = d.trunk[cand[rng.Intn(len(cand))]].Hash
+		c.BlockHash = trunk[cand[rng.Intn(len(cand))]].Hash
 	case CHashInside:
 		if stop > start {
 			o := start + int32(rng.Intn(int(stop-start+1)))
@@ -386,20 +442,29 @@ func (d *Director) corrupt(e *wire.MsgCFilter, corr string, h, start, stop int32
 					o--
 				}
 			}
-			c.BlockHash = d.trunk[o].Hash
+			c.BlockHash = trunk[o].Hash
 		} else if h+1 <= tip {
-			c.BlockHash = d.trunk[h+1].Hash
+			c.BlockHash = trunk[h+1].Hash
 		} else {
-			c.BlockHash = d.trunk[h-1].Hash
+			c.BlockHash = trunk[h-1].Hash
 		}
 	case CHashForeign:
 		if rng.Intn(3) == 0 {
-			c.BlockHash = d.trunk[0].Hash
+			c.BlockHash = trunk[0].Hash
 		} else {
 			rng.Read(c.BlockHash[:])
 		}
 	case CWrongType:
 		c.FilterType = wire.FilterType([]byte{1, 2, 0x80, 0xff}[rng.Intn(4)])
+	case COldBranch:
+		// The VALID filter of the block a re-organisation replaced at this
+		// height, under the hash of the block that took its place. Where no
+		// block was replaced: the valid filter of the neighbouring block.
+		if r := d.Replaced(h); r != nil && r.Hash != e.BlockHash {
+			c.Data = append([]byte(nil), r.FilterBytes...)
+		} else {
+			c.Data = append([]byte(nil), trunk[otherHeight(true)].FilterBytes...)
+		}
 	}
 	return c
 }
@@ -474,6 +539,19 @@ func (d *Director) apply(s Spec, entries []*wire.MsgCFilter, start int32, target
 				add(e)
 			}
 		}
+	case KStaleBranch:
+		// A peer whose filters are still those of the replaced branch: every
+		// block of the range that took the place of another one gets that
+		// block's valid filter; the rest of the range is answered honestly.
+		for i, e := range entries {
+			if r := d.Replaced(start + int32(i)); r != nil && r.Hash != e.BlockHash {
+				c := clone(e)
+				c.Data = append([]byte(nil), r.FilterBytes...)
+				add(c)
+			} else {
+				add(e)
+			}
+		}
 	case KSilence:
 	case KWrongTypeAll:
 		for _, e := range entries {
@@ -482,10 +560,11 @@ func (d *Director) apply(s Spec, entries []*wire.MsgCFilter, start int32, target
 			add(c)
 		}
 	case KExtra:
-		tip := d.tipHeight()
+		trunk := d.path()
+		tip := int32(len(trunk) - 1)
 		var before, after []*wire.MsgCFilter
 		mk := func(h int32) *wire.MsgCFilter {
-			nd := d.trunk[h]
+			nd := trunk[h]
 			hash := nd.Hash
 			return wire.NewMsgCFilter(wire.GCSFilterRegular, &hash, append([]byte(nil), nd.FilterBytes...))
 		}
@@ -573,13 +652,14 @@ func (d *Director) apply(s Spec, entries []*wire.MsgCFilter, start int32, target
 // current targets, right filters under wrong hashes, foreign hashes.
 func (d *Director) RunUnsolicited(stop <-chan struct{}, peers []*netsim.Peer, avoid map[int32]bool, seed int64) {
 	rng := rand.New(rand.NewSource(seed ^ 0x5ca1ab1e))
-	tip := d.tipHeight()
 	for {
 		select {
 		case <-stop:
 			return
 		case <-time.After(time.Duration(2+rng.Intn(30)) * time.Millisecond):
 		}
+		trunk := d.path()
+		tip := int32(len(trunk) - 1)
 		p := peers[rng.Intn(len(peers))]
 		if p.Conn() == nil || p.Conn().Dead() {
 			continue
@@ -605,12 +685,12 @@ func (d *Director) RunUnsolicited(stop <-chan struct{}, peers []*netsim.Peer, av
 		var msgs []wire.Message
 		for k := 1 + rng.Intn(3); k > 0; k-- {
 			h := pick()
-			nd := d.trunk[h]
+			nd := trunk[h]
 			hash := nd.Hash
 			e := wire.NewMsgCFilter(wire.GCSFilterRegular, &hash, append([]byte(nil), nd.FilterBytes...))
 			switch rng.Intn(6) {
 			case 0:
-				if avoid[h] || d.unsolValid.Add(-1) < 0 {
+				if vc := d.validCeil.Load(); avoid[h] || (vc > 0 && h > vc) || d.unsolValid.Add(-1) < 0 {
 					e = d.corrupt(e, CBitflip, h, h, h, rng)
 				}
 			case 1:
